@@ -23,6 +23,8 @@ is the cookie, the rest are attributes) and a reference model written from the s
   for cleared ones) and ``request.cookies`` hold exactly those names.
 * a call that raised has no effect at all: the cookies set by earlier successful calls (same name
   included) are still emitted exactly as set, and nothing of the rejected call is.
+* a plain HTTP date given through the deprecated ``Expires=`` spelling (documented as accepted) is not
+  refused when the same call without it is accepted; it is emitted as the ``expires`` attribute verbatim.
 EITHER (labelled, not asserted): empty-string attributes (treated as "not requested"); edge whitespace in
 legacy kwarg values (a reader strips it).
 
@@ -47,6 +49,9 @@ Sensitivity (scratch copies, quick tier, seed 1):
     http.cookies.Morsel._reserved of the running Python in display / upper / capitalised / lower spelling
     (Expires, Max-Age, Secure, HttpOnly, Version, Comment ..., 24 spellings + 2 unknown ones) x 23 payloads, and the
     enumerated "legacy" part runs each alone and on top of explicit parameters via set / signed / clear (1372 cases).
+  * web.py attribute validation applied unchanged (SP forbidden) to the deprecated Expires= keyword, i.e. the
+    tree before the F-C25-legacy-expires-space repair: Expires="Wed, 01 Jan 2030 00:00:00 GMT" raises   -> caught
+    (valid_legacy_expires_rejected, replays/C25/legacy-expires-plain-date.json + "legacy" sweep).
   * web.py set_cookie drops the earlier same-name morsel *before* validating the new one, so a rejected
     call (caught by the application) deletes the cookie an earlier call had set      -> caught
     (rejected_call_removed_earlier_cookie: set('a','ok'); set('a', EURO SIGN)).  Missed before: what a raising call
@@ -302,6 +307,26 @@ def evaluate(ops):
             a = op[3]
             if any(isinstance(a.get(k), str) and ";" in a[k] for k in ("domain", "path", "samesite")):
                 labels.add("semicolon_attr_rejected")
+    # ---- a documented-valid input must not be refused: the docstring says mixed-case keyword arguments
+    # "are currently accepted case-insensitively" and are handed to the Morsel, and an HTTP date is *the*
+    # valid value of the expires attribute.  Narrow and differential: the value is a strict IMF-fixdate and
+    # the very same call without that one keyword is accepted.
+    for op, r in zip(ops, raised):
+        if r is None:
+            continue
+        for k, v in sorted(op[3].get("legacy", {}).items()):
+            if k.lower() == "expires" and isinstance(v, str) and wu.IMF_FIXDATE.fullmatch(v):
+                labels.add("legacy_expires_plain_date_raised")
+                rest = {kk: vv for kk, vv in op[3].items() if kk != "legacy"}
+                other = {kk: vv for kk, vv in op[3]["legacy"].items() if kk != k}
+                if other:
+                    rest["legacy"] = other
+                CUR.clear()
+                CUR.update(phase="set", ops=[(op[0], op[1], op[2], rest)], raised=[], times=[], done=False)
+                wu.run_request(APP, wu.request_bytes("GET", "/"), "GET")
+                if CUR["raised"] == [None]:
+                    return problem("C25.valid_legacy_expires_rejected",
+                                   {"keyword": k, "value": v, "exception": repr(r)})
     # ---- the response must arrive
     if o.kind in ("hang", "dropped"):
         sig = "C25.no_response.cookie_line_unencodable" if unencodable_class(ops, raised) else None
